@@ -39,9 +39,9 @@ func init() {
 var c12Indents = []string{"", " ", "\t", "    ", " \t"}
 
 func c12Run(x *core.Ctx) {
-	n := 320 // x16 ≈ 5k documents x 20 configurations
+	n := 640 // x16 ≈ 10k documents x 20 configurations
 	if !x.Quick() {
-		n = 6250
+		n = 15000
 	}
 	r := x.Rand(uint64(x.Shard))
 	for i := 0; i < n; i++ {
